@@ -94,7 +94,7 @@ PROPS["C20"] = dict(
 )
 
 PROPS["C12"] = dict(
-    modules=["contracts.sched_sql", "contracts.C12_limits", "contracts.C10_meta"],
+    modules=["contracts.sched_sql", "contracts.C12_limits", "contracts.C10_meta", "contracts.C09_setters"],
     decided=["a step is moved to RUNNING only if it is safe (including holds) and every required resource is defined and "
              "not over-committed by RUNNING steps (SQL, exact)", "the invariant used <= available is preserved by the "
              "dispatch transaction", "job_loop starts a job only below the job limit", "hold/release counter contracts",
